@@ -58,6 +58,12 @@ NOTES = {
  "C09-w9m1": "missed at first: printed journals were far below 32 KiB. One in 40 round-trip cases now has 300-700 transactions with multi-byte characters in accounts and descriptions; then caught (printed-journal-rejected).",
  "C09-w9m2": "C09 stays silent (its runs use one schedule per case); caught by C06's price-conflict sub-check, which compares runs of one input.",
  "C05-w9m1": "C05 stays silent at the quick budget; caught by C19's race engine (data race in directives.Date.Parse).",
+ "C12-w10m2": "missed at first: no quote had more than 8 decimals (and my reference compared a direct quote untruncated). C12 now draws quotes such as 0.000000012, 0.0000000049 and 12.3456789012345, and the reference truncates the single step; then caught (direct-declaration-ignored).",
+ "C15-w10m1": "missed at first: descriptions had a handful of words. 6% of the target transactions now carry a remittance text of 150-900 unseen words; then caught (placeholder-kept-despite-candidates).",
+ "C06-w10m1": "missed at first: no two sibling names differed only in a leading zero. 'A01' joined 'A1' in the segment pool; then caught (balance-valued:line-order).",
+ "C06-w10m2": "missed at first: no two commodities differed only in case. 'usd' joined 'USD' in the commodity pool; then caught by C06, C05 and C02.",
+ "C03-w10m1": "missed at first: accounts were closed only at the end of the journal, and no account name was a string prefix of a sibling's. 12% of the journals now open and early-close an unused account named like the parent of, or one letter shorter than, an account that holds positions; then caught by C03 and C16.",
+ "C01-w10m1": "C01 stays silent: under the serialising scheduler an unwaited worker values a whole chunk in one step, so both postings of a pair are valued or neither, and Delta stays zero. Missed by C19 at first too (no day had 256 transactions); the race engine's large journals now put most bookings on one day in half of the cases; then caught by C19 (data race in valuateDay).",
 }
 DROPPED = [
  "C04 (wave 7, first change): Builder.Build skips the day sort while days 'arrive in ascending order'; the same idea as C05-m2 (caught by C04, C05, C19).",
